@@ -98,6 +98,17 @@ fn judge(path: &[(u8, f64)], out: &mut JobOut) -> bool {
     true
 }
 
+/// for the stateright cross-check: canonical path of an abstract state
+pub fn canonical_path(idx: &[u8; 5]) -> Vec<(u8, f64)> {
+    canonical(idx)
+}
+
+/// for the stateright cross-check: does build() after `path` agree with the reference predicate?
+pub fn agrees(path: &[(u8, f64)]) -> bool {
+    let mut out = JobOut::default();
+    judge(path, &mut out)
+}
+
 /// canonical path to an abstract state: set fields in index order
 fn canonical(idx: &[u8]) -> Vec<(u8, f64)> {
     // idx[f] in 0..=10: 0 = unset, k = LATTICE[k-1]
@@ -171,6 +182,13 @@ pub fn run(ctx: &Ctx) -> CheckResult {
         out
     });
     res.absorb(merge_jobs(outs));
+    // stateright cross-check of (a)+(b): same graph, independent checker
+    if !res.out.failed() {
+        let x = crate::xcheck::run_builder(ctx.threads);
+        res.extra.insert("stateright".into(), json!({"unique_states": x.unique_states, "discoveries": x.discoveries, "max_depth": x.max_depth}));
+        res.require(x.unique_states == 161_051, &format!("stateright found {} builder states, seqmc enumerated 161051", x.unique_states));
+        res.require(x.discoveries == 0, "stateright reports a discovery on the builder graph although seqmc found no violation");
+    }
     // (c): every order of the five setters on every complete tuple
     if !res.out.failed() {
         let perms = permutations5();
